@@ -209,15 +209,17 @@ func treeBuildKeepsText(c *config.Config, before string) (res string) {
 		}
 	}()
 	dispatch.NewRoute(c.Route, nil)
-	// … and the integrations of every receiver (reloader.reload: receiver.BuildReceiverIntegrations); an error is a rejected
-	// reload, a panic kills the process
+	res = "changed"
+	if c.String() == before {
+		res = "same"
+	}
+	// … and the integrations of every receiver (reloader.reload: receiver.BuildReceiverIntegrations): an error is a rejected
+	// reload, a panic kills the process.  (Only the panic is looked at: notifier constructors fill defaults into their own
+	// configuration, which the statement about the routing-tree build does not cover.)
 	for _, rc := range c.Receivers {
 		_, _ = receiver.BuildReceiverIntegrations(rc, applyTmpl, promslog.NewNopLogger())
 	}
-	if c.String() == before {
-		return "same"
-	}
-	return "changed"
+	return res
 }
 
 // containsValue reports whether some string reachable from v contains s.
